@@ -3,6 +3,7 @@ package rules
 import (
 	"fmt"
 	"go/ast"
+	"go/constant"
 	"go/token"
 	"go/types"
 	"sort"
@@ -634,6 +635,7 @@ func runC03(p *core.Prog, r *core.Report, tier string) {
 			r.Check(w == nil && len(stores) > 0, "C03.f", "checkEventForReorg|"+fld+"|stored-on-every-path", p.Pos(f.Pos()), fld+" is recorded on every path", "a path through checkEventForReorg does not record "+fld+": the next event is compared with stale data", p.WitnessText(w)...)
 		}
 		nGo := 0
+		nStarts := 0 // places that decide a start, beyond one per go statement (several comparisons setting one flag)
 		core.EachInstr(f, func(in ssa.Instruction) {
 			g, ok := in.(*ssa.Go)
 			if !ok {
@@ -658,7 +660,7 @@ func runC03(p *core.Prog, r *core.Report, tier string) {
 					return x.Kind == "field" && len(x.Args) == 1 && x.Args[0].Kind == "param" && x.Args[0].Name != f.Params[0].Name()
 				})
 			}
-			w := core.Unguarded(ds, f, nil, func(x ssa.Instruction) bool { return x == in }, func(c core.Cond) int {
+			rootsDiffer := func(c core.Cond) int {
 				if c.B != nil && c.B.IsCall("bytes.Equal") {
 					if !isStored(c.B) || !isReceived(c.B) {
 						return -1
@@ -679,7 +681,42 @@ func runC03(p *core.Prog, r *core.Report, tier string) {
 					}
 				}
 				return -1
-			})
+			}
+			w := core.Unguarded(ds, f, nil, func(x ssa.Instruction) bool { return x == in }, rootsDiffer)
+			if w != nil {
+				// the decision recorded in a flag first (`changed = true` under the comparison … `if changed { go … }`):
+				// every place that sets the flag is under the comparison
+				for _, b := range f.Blocks {
+					iff, ok := b.Instrs[len(b.Instrs)-1].(*ssa.If)
+					if !ok || !(b.Succs[0] == in.Block() || b.Succs[0].Dominates(in.Block())) {
+						continue
+					}
+					phi, ok := iff.Cond.(*ssa.Phi)
+					if !ok {
+						continue
+					}
+					allConst, nTrue := true, 0
+					var wl []ssa.Instruction
+					for _, lf := range core.PhiLeaves(phi, iff) {
+						c, isC := lf.V.(*ssa.Const)
+						if !isC || c.Value == nil || c.Value.Kind() != constant.Bool || lf.Pred == nil {
+							allConst = false
+							break
+						}
+						if !constant.BoolVal(c.Value) {
+							continue
+						}
+						nTrue++
+						if x := core.UnguardedLeaf(ds, f, nil, lf, rootsDiffer); x != nil && wl == nil {
+							wl = x
+						}
+					}
+					if allConst && nTrue > 0 {
+						w = wl
+						nStarts += nTrue - 1
+					}
+				}
+			}
 			r.Check(w == nil, "C03.f", fmt.Sprintf("checkEventForReorg|handler#%d|%s", nGo, core.CalleeName(g.Common())), p.Pos(g.Pos()), "the handler starts when a stored root differs from the received one", "the change handler is not started under a comparison of the stored with the received dependent root", p.WitnessText(w)...)
 		})
 		// one event can change both roots (a reorg deeper than an epoch boundary): the two comparisons are independent,
@@ -706,7 +743,7 @@ func runC03(p *core.Prog, r *core.Report, tier string) {
 		}
 		r.Check(both || len(prevGo) == 0 || len(curGo) == 0, "C03.f", "checkEventForReorg|both-roots-independent", p.Pos(f.Pos()), "the previous-root and current-root comparisons are independent: both handlers can start for one event",
 			"once the previous dependent root is found changed the current dependent root is no longer compared: an event that changes both refreshes only part of the duties, and the stored roots are then overwritten so the missed refresh never happens")
-		r.Check(nGo >= 3, "C03.f", "checkEventForReorg|handlers", p.Pos(f.Pos()), fmt.Sprintf("%d change handlers", nGo), fmt.Sprintf("only %d change handlers are started (previous root at epoch change, previous root, current root expected)", nGo))
+		r.Check(nGo+nStarts >= 3, "C03.f", "checkEventForReorg|handlers", p.Pos(f.Pos()), fmt.Sprintf("%d change handler starts", nGo+nStarts), fmt.Sprintf("only %d change handlers are started (previous root at epoch change, previous root, current root expected)", nGo+nStarts))
 	} else {
 		r.Undecide("C03.f", "checkEventForReorg", "", "anchor not found")
 	}
@@ -905,7 +942,9 @@ func runC03(p *core.Prog, r *core.Report, tier string) {
 			}
 			if len(epochVals) == 0 {
 				// the epoch handed over as a plain argument
-				for _, pc := range core.Calls(jf, func(c *ssa.CallCommon) bool { return c.StaticCallee() != nil && c.StaticCallee().Name() == "prepareForEpoch" }) {
+				for _, pc := range core.Calls(jf, func(c *ssa.CallCommon) bool {
+					return c.StaticCallee() != nil && c.StaticCallee().Name() == "prepareForEpoch"
+				}) {
 					a := pc.Common().Args
 					if last := a[len(a)-1]; strings.HasSuffix(last.Type().String(), "phase0.Epoch") {
 						epochVals = append(epochVals, last)
